@@ -1,6 +1,7 @@
 import ParsecVerif.Model.Future
 import ParsecVerif.Proofs.Future
 import ParsecVerif.Proofs.FutureDC
+import ParsecVerif.Proofs.FutureDCMutex
 import ParsecVerif.Base.Interleave
 /-!
 # C29 — futures complete once and deliver one value
@@ -685,6 +686,17 @@ theorem C29_dc_one_value_per_class (cfg : Cfg) (b : Nat) (pre : Bool) (progs : L
   cases hf2
   rw [hval1, hval2]
 
+/-- **C29 (locks).**  After ANY schedule every future lock is held by at most one thread, and by exactly one iff it is taken;
+    for `f = 0` the holders are the threads scanning the nested list or creating a nested future (and those inside the base
+    future's own trigger section): the list is only read and extended under the base lock. -/
+theorem C29_parent_lock_mutex (cfg : Cfg) (b : Nat) (pre : Bool) (progs : List (List DOp)) (sched : List Nat) (f : Nat) :
+    nHold (drun cfg b pre progs sched) f ≤ 1 ∧
+    (nHold (drun cfg b pre progs sched) f = 1 ↔ lockedOf (drun cfg b pre progs sched) f = true) := by
+  have h := (dminv_run cfg b pre progs sched).2 f
+  by_cases hl : lockedOf (drun cfg b pre progs sched) f = true
+  · rw [if_pos hl] at h; simp [h, hl]
+  · rw [if_neg hl] at h; simp [h, hl]
+
 /-- non-vacuity: base shape 1, classes mod 4, synchronous fulfilment; two threads ask for shape 2 and one for shape 6
     (same class): one nested future, triggered once, all three get its value -/
 example : ((drun ⟨fun x => x % 4, fun _ => false⟩ 1 false [[.trig 2], [.trig 6], [.trig 2, .trig 0]]
@@ -692,5 +704,10 @@ example : ((drun ⟨fun x => x % 4, fun _ => false⟩ 1 false [[.trig 2], [.trig
     ((drun ⟨fun x => x % 4, fun _ => false⟩ 1 false [[.trig 2], [.trig 6], [.trig 2, .trig 0]]
       [0, 1, 2, 0, 0, 0, 0, 1, 1, 2, 2, 2, 2, 2]).thr.map (·.res)) =
       [[(.trig 2, 102)], [(.trig 6, 102)], [(.trig 2, 102), (.trig 0, 101)]] := by decide
+
+
+/-- non-vacuity of the lock theorem: a thread parked inside the scan holds the base lock -/
+example : nHold (drun ⟨fun x => x % 4, fun _ => true⟩ 1 false [[.trig 2], [.trig 3]] [0, 0, 0, 0, 0, 1, 1, 1]) 0 = 1 ∧
+    lockedOf (drun ⟨fun x => x % 4, fun _ => true⟩ 1 false [[.trig 2], [.trig 3]] [0, 0, 0, 0, 0, 1, 1, 1]) 0 = true := by decide
 
 end ParsecVerif.C29
